@@ -287,7 +287,14 @@ def unroll_comprehension(n: ast.AST, root: Optional[ast.AST] = None) -> Optional
     if g.ifs or g.is_async or not isinstance(it, (ast.Tuple, ast.List)) or not (1 <= len(it.elts) <= 24):
         return None
     if not single_use and not all(is_const_expr(x) or simple_arg(x) for x in it.elts):
-        return None         # (a display of constants / plain names: evaluating an element twice or not at all cannot matter)
+        # (a display of constants / plain names: evaluating an element twice or not at all cannot matter; otherwise every target name must be
+        #  read exactly once per element, unconditionally, so that each element is still evaluated exactly once)
+        tnames = [t.id for t in ast.walk(g.target) if isinstance(t, ast.Name)]
+        parts = [getattr(n, "elt", None), getattr(n, "key", None), getattr(n, "value", None)]
+        reads = [x.id for p_ in parts if p_ is not None for x in ast.walk(p_) if isinstance(x, ast.Name) and isinstance(x.ctx, ast.Load)]
+        cond = any(isinstance(x, (ast.IfExp, ast.BoolOp, ast.Lambda, ast.ListComp, ast.GeneratorExp, ast.SetComp, ast.DictComp)) for p_ in parts if p_ is not None for x in ast.walk(p_))
+        if cond or any(reads.count(t) != 1 for t in tnames):
+            return None
     g = copy.copy(g)
     g.iter = it
 
@@ -692,6 +699,21 @@ class Inliner:
                 elif stores == 1 and not glob and isinstance(expr, (ast.Dict, ast.Tuple)) and never_mutated(project, nm) and self.function_table(m, expr):
                     self.new_consts[q] = expr       # a table of the module's own functions, keyed by constants
                     self.func_tables[q] = m
+        # class-level tables of classes introduced after the pinned tree: `_Rules.TABLE = {...}` read as `_Rules.TABLE`
+        base_classes = {q.rsplit(".", 1)[0] for q in base_funcs if q.rsplit(".", 1)[0].split(".")[-1][:1].isupper() or q.rsplit(".", 1)[0].split(".")[-1][:2] in ("_A", "_B")}
+        for m in project.modules.values():
+            for cst in m.tree.body:
+                if not isinstance(cst, ast.ClassDef) or f"{m.name}.{cst.name}" in base_classes or any(f"{m.name}.{cst.name}." in bq for bq in base_funcs):
+                    continue
+                for st in cst.body:
+                    if isinstance(st, ast.Assign) and len(st.targets) == 1 and isinstance(st.targets[0], ast.Name) and isinstance(st.value, (ast.Dict, ast.Tuple)):
+                        nm = st.targets[0].id
+                        attr_stores = any(isinstance(n, ast.Attribute) and n.attr == nm and isinstance(n.ctx, (ast.Store, ast.Del)) for m2 in project.modules.values() for n in ast.walk(m2.tree))
+                        vals = st.value.values if isinstance(st.value, ast.Dict) else st.value.elts
+                        if not attr_stores and never_mutated(project, nm) and all(isinstance(v, ast.Lambda) or is_const_expr(v) for v in vals) \
+                                and (not isinstance(st.value, ast.Dict) or all(k is not None and is_const_expr(k) for k in st.value.keys)) \
+                                and not any(isinstance(x, ast.Name) and isinstance(x.ctx, ast.Load) and x.id not in {a.arg for l in ast.walk(st.value) if isinstance(l, ast.Lambda) for a in ast.walk(l.args) if isinstance(a, ast.arg)} for x in ast.walk(st.value)):
+                            self.new_consts[f"{m.name}.{cst.name}.{nm}"] = st.value
         self.counter = 0
         self.log: List[str] = []
         for q, fi in list(self.new_funcs.items()):
@@ -802,6 +824,11 @@ class Inliner:
 
             def _unroll(self, n):
                 self.generic_visit(n)
+                from .normalize2 import comprehension_rules
+                r2 = comprehension_rules(n)
+                if r2 is not None:
+                    count[0] += 1
+                    return self.visit(at(r2, n))
                 r = unroll_comprehension(n, root)
                 if r is not None:
                     count[0] += 1
@@ -1570,7 +1597,9 @@ def normalize(project) -> List[str]:
     except OSError:
         return []
     renamed = recover_renamed_anchors(project)
-    from .normalize2 import simplify_defensive, recover_loops, hoist_lambda_calls, sink_loop_exit, unroll_search_loops, search_loops_to_any, fold_local_tables, dispatch_on_constant, accumulate_to_join, propagate_string_constants, unroll_index_loops, scalarise_local_lists
+    from .normalize2 import simplify_defensive, recover_loops, hoist_lambda_calls, sink_loop_exit, unroll_search_loops, search_loops_to_any, fold_local_tables, dispatch_on_constant, accumulate_to_join, propagate_string_constants, unroll_index_loops, scalarise_local_lists, scalarise_records
+
+    module_of = {id(fi.node): fi.module for fi in project.funcs.values()}
 
     def style_passes(fn) -> int:
         total = 0
@@ -1589,6 +1618,8 @@ def normalize(project) -> List[str]:
             n += propagate_string_constants(fn)
             n += unroll_index_loops(fn)
             n += scalarise_local_lists(fn)
+            if id(fn) in module_of:
+                n += scalarise_records(fn, module_of[id(fn)].top_assigns)
             total += n
             if not n:
                 break
